@@ -139,3 +139,51 @@ func registerPath(e *Engine) {
 	e.onMaybe("path.Join", join(path.Join))
 	e.onMaybe("path/filepath.Join", join(filepath.Join))
 }
+
+// perSegment lifts a string function over ropes with opaque tokens: concrete
+// runs go through the real function (its SSA), tokens pass unchanged. Sound
+// for functions that act bytewise on characters no token can contain (URL
+// escaping and unescaping: tokens are alphanumeric).
+func perSegment(e *Engine, name string, tuple bool) {
+	e.onMaybe(name, func(fr *Frame, a []Value) (Value, bool) {
+		s, ok := a[0].(Str)
+		if !ok || s.Fin != nil || !s.HasAtom() {
+			return nil, false
+		}
+		for _, g := range s.Segs {
+			if g.B != nil || (g.A != nil && g.A.Kind == "b64") {
+				return nil, false
+			}
+		}
+		var bl builder
+		for _, g := range s.Segs {
+			if g.A != nil {
+				bl.addSeg(g)
+				continue
+			}
+			args := append([]Value{CStr(g.S)}, a[1:]...)
+			res := fr.p.callSSA(fr.caller, fr.callpos, fr.fn, args, nil)
+			if tuple {
+				t := res.(Tuple)
+				if ei := t[1].(Iface); ei.T != nil {
+					return Tuple{Str{}, ei}, true
+				}
+				res = t[0]
+			}
+			bl.addStr(res.(Str))
+		}
+		if tuple {
+			return Tuple{bl.str(), Iface{}}, true
+		}
+		return bl.str(), true
+	})
+}
+
+func registerURL(e *Engine) {
+	perSegment(e, "net/url.escape", false)
+	perSegment(e, "net/url.unescape", true)
+	perSegment(e, "net/url.QueryEscape", false)
+	perSegment(e, "net/url.PathEscape", false)
+	perSegment(e, "net/url.QueryUnescape", true)
+	perSegment(e, "net/url.PathUnescape", true)
+}
